@@ -319,11 +319,17 @@ class FakeDevice:
 
 # ---------------------------------------------------------------- a running bridge fed over loopback UDP
 def free_udp_ports(n):
+    """n UDP ports that are free now, drawn at random below the kernel's ephemeral range (32768+) so that no other process's
+    outgoing socket and (almost surely) no concurrently running check lands on them"""
     import socket
-    socks = [socket.socket(socket.AF_INET, socket.SOCK_DGRAM) for _ in range(n)]
-    for s in socks: s.bind(("0.0.0.0", 0))
-    ps = [s.getsockname()[1] for s in socks]
-    for s in socks: s.close()
+    sysrnd = random.SystemRandom(); ps = []
+    while len(ps) < n:
+        p = sysrnd.randrange(21000, 32000)
+        if p in ps: continue
+        s = socket.socket(socket.AF_INET, socket.SOCK_DGRAM)
+        try: s.bind(("0.0.0.0", p)); ps.append(p)
+        except OSError: pass
+        finally: s.close()
     return ps
 
 
